@@ -4,6 +4,7 @@ SPEC = {
     "harness": "c06",
     "n": {"quick": 5000, "thorough": 60000},
     "shard": 500,
+    "tie_codes": (),   # every code is a failing input here: code 3 = the implementation PANICKED / hung where the proved-total model returns a value
     "trusted_base": [
         "strconv.ParseFloat/ParseInt, regexp, unicode/utf8 of the Go standard library (the float32 value of numeric tokens is not compared; the representation string and the integer flag are)",
         "/repo hook css/parser/verif_export_c06.go (read-only accessors of unexported token flags and parse-error kinds)",
